@@ -5,6 +5,7 @@ object that was used before and then changed in place, exactly what it gives on 
 vertices and elements; and a Solver that was used for another problem before must solve the present one.  `check(prop, stats)`
 runs the functions that belong to property `prop` in that way and returns the broken ties.
 """
+import os
 import numpy as np
 import scipy.sparse as sp
 
@@ -40,18 +41,24 @@ def _tet():
     return v, gen.orient_tets_positive(v, np.array(t))
 
 
-MESHES = {"tri": _tri_closed, "tri-open": _tri_open, "tri-flat": _tri_flat, "tri-fine": _tri_fine, "tet": _tet}
+def _tet_delaunay():
+    v, t = gen.delaunay_fill(gen.rng_for(0, "reuse-tet-delaunay"), 16)
+    v = np.array(v, float)
+    return v, gen.orient_tets_positive(v, np.array(t))
+
+
+MESHES = {"tet-delaunay": _tet_delaunay, "tri": _tri_closed, "tri-open": _tri_open, "tri-flat": _tri_flat, "tri-fine": _tri_fine, "tet": _tet}
 
 
 def make(kind):
     v, t = MESHES[kind]()
     with core.quiet():
-        return TetMesh(np.array(v, float), np.array(t)) if kind == "tet" else TriaMesh(np.array(v, float), np.array(t))
+        return TetMesh(np.array(v, float), np.array(t)) if kind.startswith("tet") else TriaMesh(np.array(v, float), np.array(t))
 
 
 def movers(kind):
     """in-place changes of the vertices that keep the connectivity (public operations, and plain assignment to the public attribute)"""
-    if kind == "tet":
+    if kind.startswith("tet"):
         return [("v = 1.7 * v + shift", lambda m: setattr(m, "v", 1.7 * m.v + np.array([0.3, -0.2, 0.1]))),
                 ("v = sheared v", lambda m: setattr(m, "v", m.v @ np.array([[1.0, 0.3, 0.0], [0.0, 1.0, 0.2], [0.0, 0.0, 1.1]])))]
     out = [("normalize_()", lambda m: m.normalize_()),
@@ -99,8 +106,38 @@ API = {
     "C16": [("level_length / level_path", "tri-flat", lambda m, A: [m.level_length(A["g"], 0.123), m.level_length(m.v[:, 0], float(np.median(m.v[:, 0])) + 1e-3)])],
     "C17": [("curvature", "tri", lambda m, A: list(m.curvature(2))[2:6]), ("curvature_tria", "tri", lambda m, A: list(m.curvature_tria(2))[2:])],
     "C18": [("spherical_conformal_map", "tri-fine", lambda m, A: conformal.spherical_conformal_map(m))],
-    "C19": [("tria_mean_curvature_flow", "tri", lambda m, A: diffgeo.tria_mean_curvature_flow(m, max_iter=3).v)],
+    "C19": [("tria_mean_curvature_flow", "tri", lambda m, A: diffgeo.tria_mean_curvature_flow(m, max_iter=3).v),
+            ("tria_spherical_project", "tri-fine", lambda m, A: diffgeo.tria_spherical_project(m, flow_iter=2).v)],
 }
+
+def _loops(m):
+    try:
+        return [list(map(int, l)) for l in m.boundary_loops()]
+    except ValueError:
+        return "ValueError"
+
+
+def _edges(m):
+    out = []
+    for wb in (False, True):
+        try:
+            out.append([np.asarray(x) for x in m.edges(with_boundary=wb)])
+        except ValueError:
+            out.append("ValueError")
+    return out
+
+
+API["C09"] = [("connectivity queries", "tri-open", lambda m, A: [bool(m.is_closed()), bool(m.is_manifold()), bool(m.is_oriented()), int(m.euler()), m.vertex_degrees(),
+                                                                    bool(m.has_free_vertices()), _loops(m)]),
+              ("connectivity queries (closed)", "tri", lambda m, A: [bool(m.is_closed()), bool(m.is_manifold()), bool(m.is_oriented()), int(m.euler()), m.vertex_degrees(), _loops(m)]),
+              ("edges", "tri", lambda m, A: _edges(m)), ("edges (open)", "tri-open", lambda m, A: _edges(m)),
+              ("construct_adj_dir_tidx", "tri", lambda m, A: m.construct_adj_dir_tidx())]
+API["C10"] = [("orient_ on a copy", "tri", lambda m, A: (lambda c: [c.orient_(), c.t])(TriaMesh(np.array(m.v), np.array(m.t))))]
+API["C11"] = [("refine_ on a copy", "tri-open", lambda m, A: (lambda c: [c.refine_(), c.v, c.t][1:])(TriaMesh(np.array(m.v), np.array(m.t))))]
+_tetq = lambda m, A: [bool(m.is_oriented()), (lambda b: [b.v, b.t])(m.boundary_tria()),  # noqa: E731
+                      (lambda b: [b[0].t, b[1]])(m.boundary_tria(np.arange(len(m.t), dtype=float)))]
+API["C12"] = [("tet queries (Delaunay fill)", "tet-delaunay", _tetq), ("tet queries", "tet", lambda m, A: [bool(m.is_oriented()), (lambda b: [b.v, b.t])(m.boundary_tria()),
+                                                   (lambda b: [b[0].t, b[1]])(m.boundary_tria(np.arange(len(m.t), dtype=float)))])]
 
 # C20 (objects stay consistent, nothing is modified behind the caller's back) concerns every function
 API["C20"] = [e for k in sorted(API) for e in API[k]]
@@ -146,7 +183,7 @@ def _mixed(kind):
     m = make(kind)
     t = np.array(m.t); t[::3] = t[::3][:, [0, 2, 1] + ([3] if t.shape[1] == 4 else [])]
     with core.quiet():
-        return TetMesh(np.array(m.v), t) if kind == "tet" else TriaMesh(np.array(m.v), t)
+        return TetMesh(np.array(m.v), t) if kind.startswith("tet") else TriaMesh(np.array(m.v), t)
 
 
 def purity(prop, stats=None):
@@ -187,7 +224,7 @@ def purity(prop, stats=None):
                 try:
                     with core.quiet():
                         other = make(kind)
-                        movers(kind)[-1 if kind == "tet" else 2][1](other)
+                        movers(kind)[-1 if kind.startswith("tet") else 2][1](other)
                         fn(other, args(other))
                 except Exception:  # noqa: BLE001
                     continue
@@ -238,30 +275,34 @@ def _cmp(a, b, tol=1e-7):
     return None if not bad.any() else "max deviation %.3g (scale %.3g)" % (float(np.nanmax(d)), sc)
 
 
-def check(prop, stats=None):
+def check(prop, stats=None, quick=True):
     fails = purity(prop, stats)
+    fails += solver_state(prop, stats)
+    fails += histories(prop, stats, quick)
+    fails += presentations(prop, stats, quick)
+    tolp = 1e-6 if prop in ("C03", "C04", "C18", "C19", "C08") else 1e-9
     for k, (name, kind, fn) in enumerate(API.get(prop, [])):
       for mname, move in movers(kind):          # every in-place change (similarities alone would hide scale-invariant caches)
+        # an input the function rejects (e.g. the quality gates of tria_spherical_project after a stretch) must be rejected alike on both objects
         try:
             with core.quiet():
                 m = make(kind)
                 A = args(m)
-                fn(m, A)                      # first use of the object
+            _call(fn, m, A)                   # first use of the object
+            with core.quiet():
                 move(m)                       # vertices change in place
-                second = fn(m, A)
-                fresh = TetMesh(np.array(m.v), np.array(m.t)) if kind == "tet" else TriaMesh(np.array(m.v), np.array(m.t))
-                ref = fn(fresh, A)
-        except RuntimeError as e:
-            if "exactly singular" in str(e):
-                continue                      # recorded finding F15
-            fails.append(core.Failure("correspondence", "object re-use: " + name, "raised %s: %s" % (type(e).__name__, str(e)[:100]), dict(kind="reuse", prop=prop, name=name)))
-            continue
+            second = _call(fn, m, A)
+            with core.quiet():
+                fresh = TetMesh(np.array(m.v), np.array(m.t)) if kind.startswith("tet") else TriaMesh(np.array(m.v), np.array(m.t))
+            ref = _call(fn, fresh, A)
         except Exception as e:  # noqa: BLE001
             fails.append(core.Failure("correspondence", "object re-use: " + name, "raised %s: %s" % (type(e).__name__, str(e)[:100]), dict(kind="reuse", prop=prop, name=name)))
             continue
+        if "skip" in (second[0], ref[0]):
+            continue                          # recorded finding F15
         if stats is not None:
             stats.monitor("object re-use sequences compared with a fresh object")
-        r = _cmp(second, ref, 1e-6 if prop in ("C03", "C04", "C18", "C19", "C08") else 1e-9)
+        r = _cmp(list(second), list(ref), tolp)
         if r:
             fails.append(core.Failure("correspondence", "object re-use: " + name,
                                       "after %s the result on the same object differs from the result on a fresh object with the same vertices: %s" % (mname, r),
@@ -273,27 +314,24 @@ def check(prop, stats=None):
         def ref_job(kind=kind, fn=fn):
             with core.quiet():
                 m = make(kind)
-                return fn(m, args(m))
+            return _call(fn, m, args(m))
         ref = core.run_limited(ref_job, (), 120.0)
         try:
             with core.quiet():
                 other = make(kind)
-                movers(kind)[-1 if kind == "tet" else 2][1](other)          # same counts, different geometry
-                fn(other, args(other))
+                movers(kind)[-1 if kind.startswith("tet") else 2][1](other)          # same counts, different geometry
+            _call(fn, other, args(other))
+            with core.quiet():
                 m = make(kind)
-                got = fn(m, args(m))
-        except RuntimeError as e:
-            if "exactly singular" in str(e):
-                continue
-            got = None
+            got = _call(fn, m, args(m))
         except Exception as e:  # noqa: BLE001
             fails.append(core.Failure("correspondence", "object independence: " + name, "raised %s: %s" % (type(e).__name__, str(e)[:100]), dict(kind="reuse", prop=prop, name=name)))
             continue
-        if ref[0] != "ok" or got is None:
+        if ref[0] != "ok" or "skip" in (got[0], ref[1][0]):
             continue
         if stats is not None:
             stats.monitor("results compared after the same function ran on another mesh of equal size")
-        r = _cmp(got, ref[1], 1e-6 if prop in ("C03", "C04", "C18", "C19", "C08") else 1e-9)
+        r = _cmp(list(got), list(ref[1]), tolp)
         if r:
             fails.append(core.Failure("correspondence", "object independence: " + name,
                                       "the result depends on a mesh of the same size processed before: %s" % r, dict(kind="reuse", prop=prop, name=name)))
@@ -321,10 +359,196 @@ def check(prop, stats=None):
     return fails
 
 
+# ---------------------------------------------------------------------------------------------------------------------------
+# histories that change the CONNECTIVITY of an object between two uses, and Solver objects whose matrices must survive their use
+
+def variants(kind):
+    """presentations of the same surface / solid on which the in-place mutators have something to do"""
+    def rebuild(m, v, t):
+        with core.quiet():
+            return TetMesh(v, t) if kind.startswith("tet") else TriaMesh(v, t)
+
+    def as_is():
+        return make(kind)
+
+    def reversed_():
+        m = make(kind)
+        t = np.array(m.t)
+        t[:, [1, 2]] = t[:, [2, 1]]
+        return rebuild(m, np.array(m.v), t)
+
+    def mixed():
+        return _mixed(kind)
+
+    def free_vertex():
+        m = make(kind)
+        v = np.insert(np.array(m.v), 2, np.array([9.0, 9.0, 9.0]), axis=0)
+        t = np.array(m.t)
+        t = t + (t >= 2)
+        return rebuild(m, v, t)
+
+    return [("as-is", as_is), ("all elements reversed", reversed_), ("mixed orientation", mixed), ("unused vertex at index 2", free_vertex)]
+
+
+def mutators(kind):
+    """public in-place operations that rewrite the elements (and re-run the constructor)"""
+    out = [("orient_()", lambda m: m.orient_()), ("rm_free_vertices_()", lambda m: m.rm_free_vertices_())]
+    if kind not in ("tet", "tet-delaunay", "tri-fine"):
+        out.append(("refine_()", lambda m: m.refine_()))
+    return out
+
+
+def _call(fn, m, A):
+    try:
+        with core.quiet():
+            return ("ok", fn(m, A))
+    except RuntimeError as e:
+        if "exactly singular" in str(e):
+            return ("skip", None)             # recorded finding F15
+        return ("err", type(e).__name__)
+    except Exception as e:  # noqa: BLE001
+        return ("err", type(e).__name__)
+
+
+HEAVY = ("spherical_conformal_map", "tria_mean_curvature_flow", "tria_spherical_project", "curvature", "curvature_tria", "diffusion aniso", "Solver(aniso).stiffness")
+
+
+def histories(prop, stats=None, quick=True):
+    """use an object, change its CONNECTIVITY in place with a public mutator, use it again: the second result must be the result on a
+    freshly constructed object with the current vertices and elements"""
+    fails = []
+    combos = [(e, vr, mu) for e in API.get(prop, []) for vr in variants(e[1]) for mu in mutators(e[1])]
+    if prop == "C20" and quick:
+        combos = [c for k, c in enumerate(combos) if c[0][0] not in HEAVY and k % 3 == 0]
+    elif quick:
+        combos = [c for c in combos if c[0][0] not in HEAVY or (c[1][0] == "all elements reversed" and c[2][0] == "orient_()")]
+    done = set()
+    for (name, kind, fn), (vname, mk), (mname, mut) in combos:
+        if name in done:
+            continue
+        try:
+            with core.quiet():
+                m = mk()
+            first = _call(fn, m, args(m))
+            if core.call(mut, m)[0] != "ok":          # a mutator may reject the variant: nothing to compare
+                continue
+        except Exception:  # noqa: BLE001
+            continue
+        second = _call(fn, m, args(m))
+        with core.quiet():
+            fresh = TetMesh(np.array(m.v), np.array(m.t)) if kind.startswith("tet") else TriaMesh(np.array(m.v), np.array(m.t))
+        ref = _call(fn, fresh, args(fresh))
+        if "skip" in (second[0], ref[0]):
+            continue
+        if stats is not None:
+            stats.monitor("use / connectivity mutator / use sequences compared with a fresh object")
+        r = _cmp(list(second), list(ref), 1e-6 if prop in ("C03", "C04", "C18", "C19", "C08", "C20") else 1e-9)
+        if r:
+            done.add(name)
+            fails.append(core.Failure("correspondence", "history: " + name,
+                                      "%s, then %s on a mesh with %s, then %s again: differs from a fresh object with the same vertices and elements: %s"
+                                      % (name, mname, vname, name, r), dict(kind="reuse", prop=prop, name=name, what="history")))
+    return fails
+
+
+def presentations(prop, stats=None, quick=True):
+    """the same vertices and elements handed over in another memory layout / index width (Fortran order, 3 x n input, strided views,
+    int32 / uint32 / uint16 indices) must give the same result: the Lean model sees values only"""
+    fails = []
+    plist = ["t-fortran", "transposed", "strided", "t-uint32", "vt-fortran", "t-int32", "t-uint16"]
+    for name, kind, fn in API.get(prop, []):
+        if quick and name in HEAVY and prop == "C20":
+            continue
+        for variant in ("as-is", "mixed orientation"):
+            with core.quiet():
+                m0 = make(kind) if variant == "as-is" else _mixed(kind)
+            ref = _call(fn, m0, args(m0))
+            if ref[0] == "skip":
+                continue
+            for pres in (plist[:4] if quick and (name in HEAVY or prop == "C20") else plist):
+                v, t = gen.present(np.array(m0.v), np.array(m0.t), pres)
+                try:
+                    with core.quiet():
+                        m = TetMesh(v, t) if kind.startswith("tet") else TriaMesh(v, t)
+                except Exception:  # noqa: BLE001
+                    continue
+                got = _call(fn, m, args(m))
+                if got[0] == "skip":
+                    continue
+                if stats is not None:
+                    stats.monitor("results compared across memory layouts / index widths of the same mesh")
+                r = _cmp(list(got), list(ref), 1e-6 if prop in ("C03", "C04", "C18", "C19", "C08", "C20") else 1e-9)
+                if r:
+                    fails.append(core.Failure("correspondence", "presentation: " + name, "%s on the %s mesh handed over as `%s` differs from the plain "
+                                              "row-major int64 presentation of the same values: %s" % (name, variant, pres, r),
+                                              dict(kind="reuse", prop=prop, name=name, what="presentation")))
+                    break
+            else:
+                continue
+            break
+        else:
+            # whole-number coordinates stored as integers vs the same numbers stored as float64
+            with core.quiet():
+                m0 = make(kind)
+            vi = np.rint(64 * np.array(m0.v))
+            try:
+                with core.quiet():
+                    mf = TetMesh(vi.copy(), np.array(m0.t)) if kind.startswith("tet") else TriaMesh(vi.copy(), np.array(m0.t))
+                    mi = TetMesh(vi.astype(np.int64), np.array(m0.t)) if kind.startswith("tet") else TriaMesh(vi.astype(np.int64), np.array(m0.t))
+            except Exception:  # noqa: BLE001
+                continue
+            ref, got = _call(fn, mf, args(mf)), _call(fn, mi, args(mi))
+            if "skip" in (ref[0], got[0]):
+                continue
+            if stats is not None:
+                stats.monitor("results compared across memory layouts / index widths of the same mesh")
+            r = _cmp(list(got), list(ref), 1e-6 if prop in ("C03", "C04", "C18", "C19", "C08", "C20") else 1e-9)
+            if r:
+                fails.append(core.Failure("correspondence", "presentation: " + name, "%s on a mesh with whole-number coordinates stored as int64 differs from the "
+                                          "same coordinates stored as float64: %s" % (name, r), dict(kind="reuse", prop=prop, name=name, what="presentation")))
+    return fails
+
+
+SOLVER_OPS = [("poisson(f)", lambda s, A: s.poisson(A["f"] - A["f"].mean())), ("poisson(scalar)", lambda s, A: s.poisson(0.0, (A["didx"], A["ddat"]))),
+              ("poisson(f, dirichlet, neumann)", lambda s, A: s.poisson(A["f"], (A["didx"], A["ddat"]), (A["nidx"], A["ndat"]))),
+              ("poisson(f, neumann)", lambda s, A: s.poisson(A["f"] - A["f"].mean(), (), (A["nidx"], A["ndat"]))),
+              ("eigs(3)", lambda s, A: s.eigs(3))]
+
+
+def solver_state(prop, stats=None):
+    """the matrices a Solver exposes are those of its mesh, before and after any of its methods was used"""
+    fails = []
+    if prop not in ("C01", "C02", "C03", "C05", "C20"):
+        return fails
+    for kind, lump in (("tri-open", False), ("tri", True), ("tet", False)):
+        for oname, op in SOLVER_OPS:
+            try:
+                with core.quiet():
+                    m = make(kind)
+                    A = args(m)
+                    s = Solver(m, lump=lump)
+                    a0, b0 = s.stiffness.copy(), s.mass.copy()
+                    try:
+                        op(s, A)
+                    except RuntimeError:
+                        pass
+                    a1, b1 = s.stiffness, s.mass
+            except Exception:  # noqa: BLE001
+                continue
+            if stats is not None:
+                stats.monitor("Solver matrices compared before / after a method call")
+            r = _cmp(a1, a0, 0.0) or _cmp(b1, b0, 0.0)
+            if r:
+                fails.append(core.Failure("correspondence", "Solver state: " + oname, "after %s (%s mesh, lump=%s) the stiffness / mass matrix exposed by the Solver "
+                                          "is no longer the one assembled from its mesh: %s" % (oname, kind, lump, r), dict(kind="reuse", prop=prop, name=oname, what="solver-state")))
+                break
+    return fails
+
+
 def oracle(case):
     """failing-input side: re-run the named sequence and report it as a violation of statelessness"""
     prop = case.get("prop")
-    for f in check(prop):
+    for f in check(prop, None, os.environ.get("VERIF_ESCALATED") != "1"):
         if f.case and f.case.get("name") == case.get("name"):
             return core.Violation("reuse", "%s: %s" % (f.name, f.detail), case)
     return None
